@@ -59,6 +59,9 @@ SetNames == {<<"al">>, <<"tp">>, <<"al", "tp", "al">>}
 SC(n, v, d) == [n |-> n, v |-> v, d |-> d]
 SetScenarios == {<<SC(<<"al">>, v, d)>> : v \in {<<>>, <<"al">>, <<"sp">>, <<"semi", "u3">>}, d \in DirAll}
                 \cup {<<SC(n, v, d)>> : n \in SetNames, v \in ValStr(SetLen), d \in DirFew}
+                \* values that look like percent-escapes (the concretiser makes the alphanumerics after `%` hex digits)
+                \cup {<<SC(<<"al">>, v, d)>> : v \in {<<"pct", "al", "al">>, <<"al", "pct", "al", "al", "al">>, <<"pct", "al", "al", "pct", "al", "al">>,
+                                                      <<"pct", "al">>, <<"al", "al", "pct">>}, d \in DirFew}
                 \cup {<<SC(<<"al">>, v, d), SC(<<"tp", "al">>, w, e)>> : v \in ValStr(1), w \in {<<>>, <<"eq">>, <<"dq", "comma">>}, d \in DirFew, e \in DirFew}
 
 DecTypes == {"CkA", "CkAB", "CkBA", "CkOpt", "CkRen", "CkNum"}
